@@ -89,3 +89,16 @@ Example w_spec_ok :
   spec_ok ([ONew 3; OLocal 0 [] (LAppend 0 0 1)], [(0, [(0, [VS []])], []); (0, [(0, [VS [[VI 2 7]]])], [])]) = false /\
   spec_verdict ([ONew 3; OLocal 0 [] (LAppend 0 0 1)], [(0, [(0, [VS []])], []); (0, [(0, [VS [[VI 2 7]]])], [])]) = Some (1, 7, 0).
 Proof. vm_compute. repeat split. Qed.
+
+(* observe on a real program: the record is not empty (12 steps, both handles after every step, one capacity) and is what
+   the harness would have recorded; the checker accepts it, and rejects it as soon as one observed value is changed *)
+Definition w_sels := repeat ([0; 1], [(1, @nil pstep, 0)]) 12.
+Example w_observe :
+  length (observe cstate0 w_prog w_sels) = 12 /\
+  nth 9 (observe cstate0 w_prog w_sels) (0, [], []) =
+    (0, [(0, [VS [[VP 1%Z; VI 2 10%Z]; [VP 2%Z; VI 2 20%Z]; [VP 3%Z; VI 2 30%Z]]]);
+         (1, [VS [[VP 1%Z; VI 2 10%Z]; [VP 2%Z; VI 2 20%Z]; [VP 3%Z; VI 2 30%Z]]])],
+        [(1, [], 0, 4)]) /\
+  spec_ok (w_prog, observe cstate0 w_prog w_sels) = true /\
+  spec_ok (w_prog, (0, [(0, [VS [[VP 5%Z]]])], []) :: tl (observe cstate0 w_prog w_sels)) = false.
+Proof. vm_compute. repeat split. Qed.
